@@ -238,6 +238,34 @@ var ramps = []rampT{
 	{"pcall-recursion", func(n int) string {
 		return fmt.Sprintf("local function f(k) if k == 0 then return 0 end local ok, v = pcall(f, k - 1) if not ok then error(v, 0) end return v + 1 end return f(%d)", n)
 	}, nil},
+	// chains: not nested in the source, yet as deep as they are long for whoever walks the tree
+	{"call-suffix-chain", func(n int) string {
+		return "local f f = function() return f end return f" + strings.Repeat("()", n) + " == f"
+	}, func(n int) string { return "return(true)" }},
+	{"field-suffix-chain", func(n int) string {
+		return "local t = {} t.a = t return t" + strings.Repeat(".a", n) + " == t"
+	}, func(n int) string { return "return(true)" }},
+	{"index-suffix-chain", func(n int) string {
+		return "local t = {} t[1] = t return t" + strings.Repeat("[1]", n) + " == t"
+	}, func(n int) string { return "return(true)" }},
+	{"method-suffix-chain", func(n int) string {
+		return "local t = {} function t:m() return self end return t" + strings.Repeat(":m()", n) + " == t"
+	}, func(n int) string { return "return(true)" }},
+	{"string-call-suffix-chain", func(n int) string {
+		return "local f f = function(s) return f end return f" + strings.Repeat("''", n) + " == f"
+	}, func(n int) string { return "return(true)" }},
+	{"add-chain", func(n int) string {
+		return "local a = 0 return a" + strings.Repeat("+1", n)
+	}, func(n int) string { return fmt.Sprintf("return(%d)", n) }},
+	{"concat-chain", func(n int) string {
+		return "local a = 'x' return #(a" + strings.Repeat("..a", n) + ")"
+	}, func(n int) string { return fmt.Sprintf("return(%d)", n+1) }},
+	{"and-or-chain", func(n int) string {
+		return "local a = false return a" + strings.Repeat(" or a", n) + " or 7"
+	}, func(n int) string { return "return(7)" }},
+	{"comparison-chain-parenthesised", func(n int) string {
+		return "local a = 1 return " + strings.Repeat("-", n%2) + strings.Repeat("- -", n/2) + "a"
+	}, nil},
 	// a caught overflow leaves nothing behind: the depth that can be reached is the same afterwards
 	{"overflow-storm-pcall", func(n int) string {
 		return fmt.Sprintf("local function depth() local function r(k) local ok, v = pcall(r, k + 1) if ok then return v end return k end return r(1) end local d1 = depth() for i = 1, %d do depth() end return d1 == depth(), d1 > 50", n%40+1)
